@@ -1,4 +1,5 @@
 import LachesisVerif.Spec.Lachesis
+import LachesisVerif.Proofs.OrdererSeal
 /-!
 # C09 — Epoch sealing switches cleanly to the new validator set
 
@@ -7,9 +8,38 @@ next epoch number with exactly that set and no decided frames, emits no further 
 epoch, and numbers the new epoch's blocks from frame 1. An instance reset directly to that epoch
 and validator set emits the same blocks for the new epoch's events as the instance that sealed it."
 
-Theorems about the reference implementation (`Spec.Lachesis`), which the `cons` correspondence
-stream compares with the real `IndexedLachesis` on every generated multi-epoch scenario (seals at
-arbitrary frames, mutated and unchanged validator sets, `Reset`).
+Two levels.
+
+**Implementation level** (`Model.Orderer`, the statement-by-statement model of `abft.Orderer` that the
+`cons` stream runs in lock-step against the real Go code; second half of this file, all
+unconditional — no assumption on the oracles `observe` / `sealAt` / `idKey`):
+* `C09_seal_state`: if the application returns `nv` for block `(s.epoch, frame)` then the state after
+  `onFrameDecided` is *exactly* `Model.Orderer.initial (sealedEpoch s.epoch) nv`, the state `Reset`
+  produces; `C09_initial_fields` spells it out (epoch `+1` — as `idx.Epoch`, i.e. for epochs
+  `< 2^32-1` —, exactly that set, `LastDecidedFrame = 0`, frame to decide `1`, no roots, no votes, no
+  decisions); `C09_reset_equiv`: hence every continuation (`process`, `build`, `bootstrap`) of the
+  sealed instance equals that of a directly reset one.
+* `C09_no_block_after_seal` (for `process`), `C09_handleElection_seal`, `C09_bootstrapElection_seal`,
+  `C09_bootstrap_seal`: in the list of decided frames returned by one call only the LAST entry can be
+  sealed; every entry belongs to the epoch the call started in; if the last entry is sealed the
+  returned state is the fresh state of `C09_seal_state` (so no further block of the old epoch is
+  emitted in that call, and the next decided frame is frame 1 of the new epoch); if none is sealed
+  epoch and validators are unchanged. By induction over the fuel of `handleElection` /
+  `bootstrapElection` (the `sealed → break` paths).
+* `C09_frames_consecutive`: the decided frames of one call are consecutive, starting at the frame
+  the election was deciding (`out[i].frame = frameToDecide + i`; stated with the regenerated
+  `frame + 1` kernel without, and as `+ i` with the bound `< 2^32`).
+* non-vacuity: a one-validator run whose 4th event seals epoch 1 at frame 2, and a restart that
+  decides frame 1 and seals at frame 2 in one call (`decide`).
+
+**Reference level** (`Spec.Lachesis`, first half): the same statement for the independent reference
+implementation, which the `cons` correspondence stream compares with the real `IndexedLachesis` on
+every generated multi-epoch scenario (seals at arbitrary frames, mutated and unchanged validator
+sets, `Reset`).
+
+Covered by correspondence only: that `sealEpoch` really empties the epoch DB / vector tables of the
+real store (the model's `roots := []`), and the event-level half of "emits the same blocks" (the
+confirmed-events table; block contents are C02).
 -/
 namespace C09
 open Spec.Lachesis
@@ -88,5 +118,141 @@ theorem C09_seal_switches_cleanly (seals : Seals) (s : Inst) (e : Ev) (bs : List
           simp at this; exact this
         rw [e1, e2] at this
         exact this
+
+/-! ## Implementation level: `Model.Orderer` -/
+section Impl
+open Model.Pos Model.Election Model.Orderer OrdererSeal
+
+/-- C09 (1): a seal leaves literally the state `Reset` produces for the next epoch and the returned
+    validator set, and reports the block as sealed in the old epoch. -/
+theorem C09_seal_state (env : Env) (s : OState) (frame atropos : Nat) (nv : Vals)
+    (h : env.sealAt s.epoch frame = some nv) :
+    (onFrameDecided env s frame atropos).1 = initial (Gen.Orderer.sealedEpoch s.epoch) nv ∧
+    (onFrameDecided env s frame atropos).2 = ⟨s.epoch, frame, atropos, true⟩ := by
+  rcases onFrameDecided_cases env s frame atropos with ⟨nv', hs, he⟩ | ⟨hs, _⟩
+  · rw [h] at hs; cases hs; rw [he]; exact ⟨rfl, rfl⟩
+  · rw [h] at hs; cases hs
+
+/-- what the fresh state is: next epoch number, exactly the given set, nothing decided, frame 1 to
+    decide, no roots, a fresh election -/
+theorem C09_initial_fields (epoch : Nat) (nv : Vals) :
+    (initial epoch nv).epoch = epoch ∧ (initial epoch nv).vals = nv ∧ (initial epoch nv).ldf = 0 ∧
+    (initial epoch nv).el.frameToDecide = 1 ∧ (initial epoch nv).el.vals = nv ∧
+    (initial epoch nv).roots = [] ∧ (initial epoch nv).el.votes = [] ∧ (initial epoch nv).el.decidedRoots = [] :=
+  ⟨rfl, rfl, (by show Gen.Orderer.sealedLastDecided = 0; decide),
+   (by show Gen.Orderer.sealedFrameToDecide = 1; decide), rfl, rfl, rfl, rfl⟩
+
+theorem C09_sealedEpoch (epoch : Nat) (h : epoch + 1 < 4294967296) : Gen.Orderer.sealedEpoch epoch = epoch + 1 :=
+  Nat.mod_eq_of_lt h
+
+/-- C09 (reset equivalence): after a seal the instance is indistinguishable from one reset directly to
+    that epoch and set — every later `process`, `build` and restart gives the same answers. -/
+theorem C09_reset_equiv (env : Env) (s : OState) (frame atropos : Nat) (nv : Vals)
+    (h : env.sealAt s.epoch frame = some nv) :
+    let sealed := (onFrameDecided env s frame atropos).1
+    let fresh := initial (Gen.Orderer.sealedEpoch s.epoch) nv
+    (∀ id creator spf claimed, process env sealed id creator spf claimed = process env fresh id creator spf claimed) ∧
+    (∀ id spf, build env sealed id spf = build env fresh id spf) ∧
+    bootstrap env sealed = bootstrap env fresh := by
+  intro sealed fresh
+  have : sealed = fresh := (C09_seal_state env s frame atropos nv h).1
+  rw [this]
+  exact ⟨fun _ _ _ _ => rfl, fun _ _ => rfl, rfl⟩
+
+/-- C09 (2) for `Process`: only the last decided frame of a call can be sealed, all of them belong to
+    the epoch the call started in, a sealed last one leaves the fresh next-epoch state, and without a
+    seal epoch and validators are unchanged. -/
+theorem C09_no_block_after_seal (env : Env) (s : OState) (id creator spf claimed : Nat) (s' : OState)
+    (out : List Decided) (h : process env s id creator spf claimed = (s', .ok out)) :
+    (∀ d ∈ out, d.epoch = s.epoch) ∧
+    (∀ d ∈ out.dropLast, d.sealed = false) ∧
+    (∀ d, out.getLast? = some d → d.sealed = true →
+      ∃ nv, env.sealAt s.epoch d.frame = some nv ∧ s' = initial (Gen.Orderer.sealedEpoch s.epoch) nv) ∧
+    ((∀ d ∈ out, d.sealed = false) → s'.epoch = s.epoch ∧ s'.vals = s.vals) := by
+  have := process_spec env s id creator spf claimed s' out h
+  exact ⟨this.old_epoch, this.only_last_sealed, this.sealed_state,
+    fun hu => ⟨(this.unsealed_state hu).1, (this.unsealed_state hu).2.1⟩⟩
+
+/-- the same for the loop of `handleElection` alone, started with no decided frame -/
+theorem C09_handleElection_seal (env : Env) (id creator frame fuel f : Nat) (s s' : OState)
+    (out : List Decided) (h : handleElection env id creator frame fuel f s [] = .ok (s', out)) :
+    CallSpec env s s.el.frameToDecide out s' :=
+  callSpec_of env s _ out s'
+    (handleElection_spec env id creator frame fuel f s [] s' out
+      ⟨fun d hd => (by cases hd), rfl, rfl, rfl, rfl⟩ h)
+
+/-- the same for `bootstrapElection`; its third result says whether the last entry sealed -/
+theorem C09_bootstrapElection_seal (env : Env) (fuel : Nat) (s s' : OState) (out : List Decided) (flag : Bool)
+    (h : bootstrapElection env fuel s [] = .ok (s', out, flag)) :
+    CallSpec env s s.el.frameToDecide out s' ∧ (flag = true → ∃ d, out.getLast? = some d ∧ d.sealed = true) := by
+  have hb := bootstrapElection_spec env fuel s [] s' out flag
+    (E := s.epoch) (V := s.vals) (F := s.el.frameToDecide) ⟨fun d hd => (by cases hd), rfl, rfl, rfl, rfl⟩ h
+  rcases hb with ⟨hf, hb⟩ | ⟨hf, hb⟩
+  · exact ⟨callSpec_of env s _ out s' (Or.inl hb), fun hc => by rw [hf] at hc; cases hc⟩
+  · refine ⟨callSpec_of env s _ out s' (Or.inr hb), fun _ => ?_⟩
+    obtain ⟨out1, d, nv, rfl, _, hds, _⟩ := hb.ex
+    exact ⟨d, List.getLast?_concat .., hds⟩
+
+/-- the same for a restart (`Bootstrap`) -/
+theorem C09_bootstrap_seal (env : Env) (s s' : OState) (out : List Decided) (flag : Bool)
+    (h : bootstrap env s = .ok (s', out, flag)) :
+    CallSpec env s (Gen.Orderer.bootstrapFrameToDecide s.ldf) out s' ∧
+    (flag = true ↔ ∃ d, out.getLast? = some d ∧ d.sealed = true) :=
+  bootstrap_spec env s s' out flag h
+
+/-- C09 (3): the frames decided by one `Process` call are consecutive, starting at the frame the
+    election was deciding. First form: with the regenerated `frame + 1` kernel; second: as numbers. -/
+theorem C09_frames_consecutive (env : Env) (s : OState) (id creator spf claimed : Nat) (s' : OState)
+    (out : List Decided) (h : process env s id creator spf claimed = (s', .ok out)) :
+    (∀ (h0 : 0 < out.length), out[0].frame = s.el.frameToDecide) ∧
+    (∀ i (hi : i + 1 < out.length), out[i + 1].frame = Gen.Orderer.nextFrameToDecide out[i].frame) ∧
+    (s.el.frameToDecide + out.length < 4294967296 →
+      ∀ i (hi : i < out.length), out[i].frame = s.el.frameToDecide + i) := by
+  have sp := process_spec env s id creator spf claimed s' out h
+  refine ⟨fun h0 => sp.frame_at 0 h0, fun i hi => ?_, fun hb i hi => ?_⟩
+  · rw [sp.frame_at (i + 1) hi, sp.frame_at i (by omega)]; rfl
+  · rw [sp.frame_at i hi]; exact frameAfter_eq _ _ (by omega)
+
+/-- … and after an unsealed call the election waits for the frame after the last decided one -/
+theorem C09_next_frame (env : Env) (s : OState) (id creator spf claimed : Nat) (s' : OState)
+    (out : List Decided) (h : process env s id creator spf claimed = (s', .ok out))
+    (hu : ∀ d ∈ out, d.sealed = false) (hb : s.el.frameToDecide + out.length < 4294967296) :
+    s'.el.frameToDecide = s.el.frameToDecide + out.length := by
+  have sp := process_spec env s id creator spf claimed s' out h
+  rw [(sp.unsealed_state hu).2.2]; exact frameAfter_eq _ _ hb
+
+end Impl
+
+/-! ### non-vacuity -/
+namespace Example
+open Model.Pos Model.Election Model.Orderer
+
+def vals1 : Vals := { sorted := [(0, 1)], total := 1 }
+def vals2 : Vals := { sorted := [(0, 1), (1, 1)], total := 2 }
+/-- one validator, a chain of events `0 ← 1 ← 2 ← 3` (frames 1..4); the application seals epoch 1 at
+    frame 2 with a two-validator set -/
+def env : Env :=
+  { observe := fun a b => decide (b ≤ a), idKey := id
+    sealAt := fun e f => if e = 1 ∧ f = 2 then some vals2 else none }
+def st1 := (process env (initial 1 vals1) 0 0 0 1).1
+def st2 := (process env st1 1 0 1 2).1
+def st3 := (process env st2 2 0 2 3).1
+
+/-- the third event decides frame 1 (no seal), the fourth decides frame 2 and seals -/
+example : (match (process env st2 2 0 2 3).2 with
+    | .ok out => decide (out = [⟨1, 1, 0, false⟩]) | _ => false) = true := by decide
+example : (match (process env st3 3 0 3 4).2 with
+    | .ok out => decide (out = [⟨1, 2, 1, true⟩]) | _ => false) = true := by decide
+example : ((process env st3 3 0 3 4).1.epoch, (process env st3 3 0 3 4).1.vals.sorted,
+    (process env st3 3 0 3 4).1.ldf, (process env st3 3 0 3 4).1.el.frameToDecide,
+    (process env st3 3 0 3 4).1.roots) = (2, [(0, 1), (1, 1)], 0, 1, []) := by decide
+
+/-- a restart with four known roots and nothing decided: one call decides frame 1 and then seals at
+    frame 2 — two entries, only the last sealed -/
+def stR : OState := { initial 1 vals1 with roots := [⟨0, 1, 0⟩, ⟨1, 2, 0⟩, ⟨2, 3, 0⟩, ⟨3, 4, 0⟩] }
+example : (match bootstrap env stR with
+    | .ok (_, out, flag) => decide (out = [⟨1, 1, 0, false⟩, ⟨1, 2, 1, true⟩]) && flag | _ => false) = true := by
+  decide
+end Example
 
 end C09
